@@ -3,6 +3,7 @@ import PdModel.Spec.C08
 import PdModel.Lemmas.BuilderJoint2
 import PdModel.Lemmas.BuilderCalls
 import PdModel.Lemmas.BuilderLeave
+import PdModel.Lemmas.BuilderSingle
 import PdModel.Generated.Builder
 set_option linter.unusedSimpArgs false
 set_option linter.unusedVariables false
@@ -270,6 +271,141 @@ theorem build_leave_joint_safe (c : Cluster) (origin : Region) (uh : List Nat) (
       rcases hfull with hh | hh <;> simp [hh]
     · exact hn
     · exact hm0
+
+/-! ### the non-joint builder with at most one pending change -/
+
+theorem buildNoJoint_eq (b : B) :
+    buildNoJoint b = (match planLoop (pendingCount b) b with
+      | .error e => .error e
+      | .ok b' => if (finishNoJoint b').steps.length == 0 then .error .noStep else .ok (finishNoJoint b')) := rfl
+
+/-- **C08, single change** (the only way `buildStepsWithoutJointConsensus` runs while joint consensus is
+    on, and every `Create{Add,Remove,Promote}…Operator` / leader transfer): for every recorded request on
+    a well-formed region whose peer ids are distinct, if `prepareBuild` leaves at most one pending peer
+    change and the greedy loop returns steps, they are a safe plan for the requested placement.  This
+    goes through `peerPlan` (its planners, `comparePlan`, the leader candidates) and the final transfer. -/
+theorem build_single_change_safe (b0 b1 b2 : B) (nid : Nat) (rec : Recorded b0)
+    (hids : (b0.originPeers.map (·.id)).Nodup)
+    (h1 : prepareBuild b0 nid = .ok b1) (hpc : pendingCount b1 ≤ 1) (h2 : buildNoJoint b1 = .ok b2) :
+    C08.SafePlan ⟨b0.originPeers, b0.originLeader⟩ (requestedTarget b0) b2.steps := by
+  have hp := prepared_of b0 b1 nid rec h1
+  -- one round (or none) of the loop
+  have hround : ∃ b', planLoop (pendingCount b1) b1 = .ok b' ∧ RoundOk b0 b' ∧
+      b'.targetPeers = b0.targetPeers ∧ b'.targetLeader = reqLeader b0 := by
+    rw [buildNoJoint_eq] at h2
+    cases hl : planLoop (pendingCount b1) b1 with
+    | error e => rw [hl] at h2; cases h2
+    | ok b' =>
+      refine ⟨b', rfl, ?_⟩
+      unfold pendingCount at hpc hl
+      -- which map is non-empty
+      cases hA : b1.toAdd with
+      | nil =>
+        cases hR : b1.toRemove with
+        | nil =>
+          cases hP : b1.toPromote with
+          | nil =>
+            cases hD : b1.toDemote with
+            | nil =>
+              simp only [hA, hR, hP, hD, List.length_nil, planLoop, pendingCount] at hl
+              simp at hl
+              subst hl
+              exact ⟨⟨sinv_start b0 b1 nid rec hp, by rw [hp.cur]; exact matches_none b0 b1 nid rec hp hA hR hP hD⟩,
+                hp.keeps.targetPeers, hp.leader⟩
+            | cons d ds =>
+              have hds : ds = [] := by
+                simp only [hA, hR, hP, hD, List.length_nil, List.length_cons] at hpc
+                exact List.length_eq_zero_iff.1 (by omega)
+              subst hds
+              simp only [hA, hR, hP, hD, List.length_nil, List.length_cons, planLoop, pendingCount] at hl
+              simp only [Nat.zero_add, Nat.add_eq_zero_iff, List.length_eq_zero_iff, beq_iff_eq, reduceCtorEq,
+                and_false, if_false] at hl
+              split at hl; · cases hl
+              next hne =>
+              split at hl
+              · cases hl
+                exact ⟨round_demote b0 b1 nid rec hp d hids hA hR hP hD (by simpa using hne),
+                  by rw [(execPlan_keeps _ _).1, hp.keeps.targetPeers], by rw [(execPlan_keeps _ _).2, hp.leader]⟩
+              · cases hl
+          | cons n ns =>
+            have hns : ns = [] ∧ b1.toDemote = [] := by
+              simp only [hA, hR, hP, List.length_nil, List.length_cons] at hpc
+              exact ⟨List.length_eq_zero_iff.1 (by omega), List.length_eq_zero_iff.1 (by omega)⟩
+            obtain ⟨hns1, hD⟩ := hns
+            subst hns1
+            simp only [hA, hR, hP, hD, List.length_nil, List.length_cons, planLoop, pendingCount] at hl
+            simp only [Nat.zero_add, Nat.add_eq_zero_iff, List.length_eq_zero_iff, beq_iff_eq, reduceCtorEq,
+              and_false, false_and, if_false] at hl
+            split at hl; · cases hl
+            split at hl
+            · cases hl
+              exact ⟨round_promote b0 b1 nid rec hp n hA hR hP hD,
+                by rw [(execPlan_keeps _ _).1, hp.keeps.targetPeers], by rw [(execPlan_keeps _ _).2, hp.leader]⟩
+            · cases hl
+        | cons x xs =>
+          have hxs : xs = [] ∧ b1.toPromote = [] ∧ b1.toDemote = [] := by
+            simp only [hA, hR, List.length_nil, List.length_cons] at hpc
+            exact ⟨List.length_eq_zero_iff.1 (by omega), List.length_eq_zero_iff.1 (by omega),
+              List.length_eq_zero_iff.1 (by omega)⟩
+          obtain ⟨hxs1, hP, hD⟩ := hxs
+          subst hxs1
+          simp only [hA, hR, hP, hD, List.length_nil, List.length_cons, planLoop, pendingCount] at hl
+          simp only [Nat.zero_add, Nat.add_eq_zero_iff, List.length_eq_zero_iff, beq_iff_eq, reduceCtorEq,
+            and_false, false_and, if_false] at hl
+          split at hl; · cases hl
+          next hne =>
+          split at hl
+          · cases hl
+            exact ⟨round_remove b0 b1 nid rec hp x hA hR hP hD (by simpa using hne),
+              by rw [(execPlan_keeps _ _).1, hp.keeps.targetPeers], by rw [(execPlan_keeps _ _).2, hp.leader]⟩
+          · cases hl
+      | cons a as =>
+        have has : as = [] ∧ b1.toRemove = [] ∧ b1.toPromote = [] ∧ b1.toDemote = [] := by
+          simp only [hA, List.length_cons] at hpc
+          exact ⟨List.length_eq_zero_iff.1 (by omega), List.length_eq_zero_iff.1 (by omega),
+            List.length_eq_zero_iff.1 (by omega), List.length_eq_zero_iff.1 (by omega)⟩
+        obtain ⟨has1, hR, hP, hD⟩ := has
+        subst has1
+        simp only [hA, hR, hP, hD, List.length_nil, List.length_cons, planLoop, pendingCount] at hl
+        simp only [Nat.zero_add, Nat.add_eq_zero_iff, List.length_eq_zero_iff, beq_iff_eq, reduceCtorEq,
+          and_false, false_and, if_false] at hl
+        split at hl; · cases hl
+        next hne =>
+        split at hl
+        · cases hl
+          exact ⟨round_add b0 b1 nid rec hp a hA hR hP hD (by simpa using hne),
+            by rw [(execPlan_keeps _ _).1, hp.keeps.targetPeers], by rw [(execPlan_keeps _ _).2, hp.leader]⟩
+        · cases hl
+  obtain ⟨b', hl, hr, hT, hL⟩ := hround
+  rw [buildNoJoint_eq, hl] at h2
+  simp only at h2
+  split at h2; · cases h2
+  cases h2
+  obtain ⟨fs, ff⟩ := finish_safe (reqLeader b0) hr.inv hT rec.nodupT hr.matches_ hL (reqLeader_voter b0 rec)
+  exact ⟨fs, ff⟩
+
+/-- the same through the entry point `NewBuilder(region).<any recording calls>.Build()` -/
+theorem buildWith_single_change_safe (c : Cluster) (origin : Region) (uh : List Nat) (skip : Bool)
+    (calls : List Call) (nid : Nat) (b2 : B) (hg : GoodOrigin origin)
+    (hids : (origin.peers.map (·.id)).Nodup)
+    (h : buildWith c origin uh skip calls nid = .ok b2) :
+    ∃ b0, (∃ bn, newBuilder c origin uh skip = .ok bn ∧ applyCalls bn calls = .ok b0) ∧
+      ∀ b1, prepareBuild b0 nid = .ok b1 → b1.useJoint = false → pendingCount b1 ≤ 1 →
+        C08.SafePlan origin (requestedTarget b0) b2.steps := by
+  unfold buildWith at h
+  split at h; · cases h
+  next bn hn =>
+  split at h; · cases h
+  next b0 hc =>
+  refine ⟨b0, ⟨bn, hn, hc⟩, ?_⟩
+  intro b1 hp hj hpc
+  obtain ⟨rec, e1, e2⟩ := recorded_of_calls c origin uh skip calls bn b0 hg hn hc
+  unfold build at h
+  rw [hp] at h
+  simp only [hj, Bool.false_eq_true, if_false] at h
+  have := build_single_change_safe b0 b1 b2 nid rec (by rw [e1]; exact hids) hp hpc h
+  rw [e1, e2] at this
+  exact this
 
 /-! ### the two input classes on which the pinned builder is unsafe -/
 
